@@ -105,3 +105,9 @@ def run(ctx):
     cov["retarget_sweep"] = {"shipped_valid_schemas": n_ok, "mutants": len(cases), "accepted": len(accepted),
                              "by_mutation": dict(collections.Counter(c[3].split("-")[0] + "/" + r["outcome"] for c, r in zip(cases, res)))}
     cov["disagreements_checked"] = cov.get("disagreements_checked", 0) + len(bad)
+    # references, attribute paths and connections across import files (schema-qualified references)
+    import engine
+    scale = 1 if ctx.tier == "quick" else 10
+    engine.import_family(ctx, random.Random(ctx.seed + 3), 24 * scale, 16 * scale,
+                         only=("connection_target_missing", "connection_target_native", "connection_target_in_other_import", "add_dependency_not_native_checkpoint"),
+                         what="T3 correspondence: references across import files, whole validator vs Coq model (Model/Imports.v)")
